@@ -152,7 +152,7 @@ theorem decision_changes_between_iterations (d : StepDef) (hr : d.run = .str "{g
       have hrun : fmtB (setI y t) d.run = .ok false := by
         rw [hr]; exact fmtB_key_bool _ _ _ _ parse_go hg
       have h1 : itemOut fr (fun fr' => runConditional d (flipBody fr')) y t = (setI y t, .ok) :=
-        runConditional_run_false d _ _ hrun
+        runConditional_run_false d (flipBody { fr with forI := some y }) (setI y t) hrun
       rw [foreachItems_cons_of_ok _ _ _ _ _ (by rw [h1]), h1]
       obtain ⟨t', e1, e2, e3⟩ := ih (setI y t) hg
       exact ⟨t', e1, e2, e3⟩
@@ -165,9 +165,11 @@ theorem decision_changes_between_iterations (d : StepDef) (hr : d.run = .str "{g
   have h1 : itemOut fr (fun fr' => runConditional d (flipBody fr')) x s =
       ({ (setI x s) with ctx := Ctx.set (setI x s).ctx "go" (.bool false),
                          trace := (setI x s).trace ++ [markEvent] }, .ok) :=
-    runConditional_nonerr d _ _ _ _ hrun hskip rfl rfl
+    runConditional_nonerr d (flipBody { fr with forI := some x }) (setI x s) _ .ok hrun hskip rfl rfl
   rw [foreachItems_cons_of_ok _ _ _ _ _ (by rw [h1]), h1]
-  obtain ⟨t', e1, e2, e3⟩ := off rest _ (ctx_get_set_self _ _ _)
+  obtain ⟨t', e1, e2, e3⟩ := off rest
+    { (setI x s) with ctx := Ctx.set (setI x s).ctx "go" (.bool false),
+                      trace := (setI x s).trace ++ [markEvent] } (ctx_get_set_self _ _ _)
   exact ⟨t', e1, e2, e3⟩
 
 /-! ## swallow -/
